@@ -1381,10 +1381,10 @@ func (vm *VM) run() (Addr, bool) {
 					iter := v.MapRange()
 					for iter.Next() {
 						if b != 0 {
-							vm.setFromReflectValue(b, iter.Key())
+							vm.setFromReflectValue(b, copyOfValue(iter.Key()))
 						}
 						if c != 0 {
-							vm.setFromReflectValue(c, iter.Value())
+							vm.setFromReflectValue(c, copyOfValue(iter.Value()))
 						}
 						vm.pc = bodyAddress
 						addr, breakOut := vm.run()
@@ -1415,7 +1415,7 @@ func (vm *VM) run() (Addr, bool) {
 							break
 						}
 						if b != 0 {
-							vm.setFromReflectValue(b, u)
+							vm.setFromReflectValue(b, copyOfValue(u))
 						}
 						vm.pc = bodyAddress
 						addr, breakOut := vm.run()
@@ -1451,7 +1451,7 @@ func (vm *VM) run() (Addr, bool) {
 							vm.setInt(b, int64(i))
 						}
 						if c != 0 {
-							vm.setFromReflectValue(c, v.Index(i))
+							vm.setFromReflectValue(c, copyOfValue(v.Index(i)))
 						}
 						vm.pc = bodyAddress
 						addr, breakOut := vm.run()
